@@ -3,6 +3,7 @@ package props
 import (
 	"bytes"
 	"fmt"
+	"strings"
 
 	"github.com/fluhus/biostuff/sequtil"
 
@@ -127,6 +128,97 @@ func runC12(r *core.Run) {
 				return core.Failf("ReverseComplementString(%q) did not panic (returned %q)", src, gotS)
 			}
 			return core.Outcome{Class: "panics", Nontrivial: true, Evals: 2}
+		})
+
+	core.Clause(r, "canonical-iterator-reuse", core.Opts{Rule: "one iter.Seq value from CanonicalSubsequences used as a history: run fully twice; run fully after an early break at every position; a full run nested inside another run at every position; every sequence over ACGT up to length 5 x k in 1..3; non-trivial = at least 2 items"},
+		func(emit func(c12Canon) bool) {
+			enum.Strings("ACGT", 5, func(s string) bool {
+				for k := 1; k <= 3; k++ {
+					if !emit(c12Canon{core.S(s), k}) {
+						return false
+					}
+				}
+				return true
+			})
+		},
+		func(c c12Canon) core.Outcome {
+			seq := c.Seq.B()
+			var want []string
+			for i := 0; i+c.K <= len(seq); i++ {
+				km := seq[i : i+c.K]
+				rc, _ := ref.RevComp(km)
+				if bytes.Compare(rc, km) < 0 {
+					km = rc
+				}
+				want = append(want, string(km))
+			}
+			it := sequtil.CanonicalSubsequences(seq, c.K)
+			collect := func() []string {
+				var got []string
+				for km := range it {
+					got = append(got, string(km))
+					if len(got) > len(want)+3 {
+						break
+					}
+				}
+				return got
+			}
+			same := func(got []string) bool {
+				return strings.Join(got, ",") == strings.Join(want, ",") && len(got) == len(want)
+			}
+			var fail string
+			evals := 0
+			p := catch(func() {
+				for rep := 1; rep <= 2; rep++ {
+					evals++
+					if got := collect(); !same(got) {
+						fail = fmt.Sprintf("run %d of the same iterator value yields %q, want %q", rep, got, want)
+						return
+					}
+				}
+				for stop := 1; stop <= len(want); stop++ {
+					n := 0
+					for range it {
+						n++
+						if n == stop {
+							break
+						}
+					}
+					evals += 2
+					if got := collect(); !same(got) {
+						fail = fmt.Sprintf("a full run after a run stopped at item %d yields %q, want %q", stop, got, want)
+						return
+					}
+				}
+				for at := 1; at <= len(want); at++ {
+					var outer []string
+					for km := range it {
+						outer = append(outer, string(km))
+						if len(outer) == at {
+							evals++
+							if got := collect(); !same(got) {
+								fail = fmt.Sprintf("a run nested at item %d yields %q, want %q", at, got, want)
+								return
+							}
+						}
+						if len(outer) > len(want)+3 {
+							break
+						}
+					}
+					evals++
+					if !same(outer) {
+						fail = fmt.Sprintf("the outer run around a nested run at item %d yields %q, want %q", at, outer, want)
+						return
+					}
+				}
+			})
+			if p != "" {
+				return core.Failf("CanonicalSubsequences(%q,%d), iterator value reused: panic: %s", seq, c.K, p)
+			}
+			if fail != "" {
+				return core.Failf("CanonicalSubsequences(%q,%d): %s", seq, c.K, fail)
+			}
+			return core.Outcome{Class: fmt.Sprint("items=", min(len(want), 3)), Nontrivial: len(want) >= 2, Evals: evals}
 		})
 
 	core.Clause(r, "revcomp-long", core.Opts{Rule: "position-dependent sequences over the 10-letter alphabet of every length 0..300 and 1000, 4095..4097, 65535..65537 x 3 dst variants; non-trivial = all"},
